@@ -86,12 +86,19 @@ var (
 //	fixed: property=<id> <commit> <free text>      (suppresses nothing)
 func LoadKnown() []Known {
 	knownOnce.Do(func() {
-		f, err := os.Open(filepath.Join(VerifDir(), "KNOWN_FINDINGS.txt"))
-		if err != nil {
-			return
+		files := []string{filepath.Join(VerifDir(), "KNOWN_FINDINGS.txt")}
+		more, _ := filepath.Glob(filepath.Join(VerifDir(), "known.d", "*.txt"))
+		sort.Strings(more)
+		files = append(files, more...)
+		var all []byte
+		for _, fn := range files {
+			b, err := os.ReadFile(fn)
+			if err == nil {
+				all = append(all, b...)
+				all = append(all, '\n')
+			}
 		}
-		defer f.Close()
-		sc := bufio.NewScanner(f)
+		sc := bufio.NewScanner(strings.NewReader(string(all)))
 		sc.Buffer(make([]byte, 1<<20), 1<<20)
 		for sc.Scan() {
 			line := strings.TrimSpace(sc.Text())
